@@ -7,3 +7,7 @@ pub(crate) mod store;
 pub mod service;
 
 pub use service::{IndexerHandle, IndexerService};
+
+/// Verification hooks.
+#[cfg(ckb_verif)]
+pub mod verif;
